@@ -7,8 +7,9 @@ CONSTANTS
   Keys = {"k1", "k2"}
   Windows = {"ok", "expired", "notYet"}
   Usages = {"client", "server", "both", "none"}
-  ChainLens = {0, 1, 2}
+  ChainLens = {0, 1, 2, 3}
   Holds = {TRUE, FALSE}
+  OnchainCNs = {"X", "Y"}
   RegStates = {"valid", "revoked"}
   RegKeys = {"k1", "k2"}
   RegWindows = {"ok", "expired", "notYet"}
@@ -18,7 +19,10 @@ CONSTANTS
   DTokens = {"own", "other", "padded", "zero", "alpha", "neg", "plus", "hex", "space", "overflow"}
   GTokens = {"own", "other", "zero", "alpha", "neg", "overflow"}
   OTokens = {"own", "other", "zero", "alpha", "neg", "overflow"}
-  Extras = {"none", "spoof"}
+  Extras = {"none", "spoof", "badparams"}
+  Tickets = TRUE
+  Changes = {"none", "revoke"}
+  Presents = {"same", "nocert"}
 INIT Init
 NEXT Next
-INVARIANTS AuthSound VpcSound ScopeSound Complete
+INVARIANTS AuthSound VpcSound ScopeSound Complete ResumeSound ResumeScope
